@@ -139,7 +139,8 @@ def pair_case(draw, tier):
             k2 = draw(keys)
     fill = draw(st.sampled_from([0, 0, 0, 0, 101, 150]))
     reopen = draw(st.integers(0, 7)) == 0
-    return {'disk': disk, 'protocol': protocol, 'k1': k1, 'k2': k2, 'how': how, 'fill': fill, 'reopen': reopen}
+    probe = draw(st.sampled_from(['none', 'touch', 'pop', 'delete', 'add', 'incr', 'absent']))
+    return {'disk': disk, 'protocol': protocol, 'k1': k1, 'k2': k2, 'how': how, 'fill': fill, 'reopen': reopen, 'probe': probe}
 
 
 def jident(k):
@@ -255,6 +256,42 @@ class Pairs(SubCheck):
             got_sorted = orders['iterkeys']
             if [ident(k) for k in got_sorted] != [ident(k) for k in exp_sorted]:
                 fail('sorted-order', 'iterkeys() order %s, expected %s' % (short(got_sorted, 200), short(exp_sorted, 200)))
+        probe = case.get('probe', 'none')
+        if not equal and probe != 'none' and not jd:
+            # every key-addressed operation must address k1's entry only
+            if probe == 'touch':
+                if c.touch(k1, expire=1000) is not True:
+                    fail('alias', 'touch(k1) on a stored key returned False')
+                e1, e2 = c.get(k1, expire_time=True)[1], c.get(k2, expire_time=True)[1]
+                if e1 is None or e2 is not None:
+                    fail('alias', 'after touch(k1, 1000): expire_time(k1)=%r, expire_time(k2)=%r (k2 must be untouched)' % (e1, e2))
+                c.touch(k1, expire=None)
+            elif probe == 'add':
+                if c.add(k1, 'other') is not False or c.get(k1) != 'v1' or c.get(k2) != 'v2':
+                    fail('alias', 'add(k1) on a stored key: k1=%r k2=%r' % (c.get(k1), c.get(k2)))
+            elif probe == 'incr':
+                c[k1] = 10
+                c[k2] = 20
+                r = c.incr(k1, 5)
+                if r != 15 or c.get(k1) != 15 or c.get(k2) != 20:
+                    fail('alias', 'incr(k1, 5) -> %r; k1=%r k2=%r' % (r, c.get(k1), c.get(k2)))
+                c[k1] = 'v1'
+                c[k2] = 'v2'
+            elif probe in ('pop', 'delete', 'absent'):
+                gone = c.pop(k1, 'MISSING') if probe != 'delete' else c.delete(k1)
+                if (probe != 'delete' and gone != 'v1') or (probe == 'delete' and gone is not True):
+                    fail('alias', '%s(k1) returned %r' % (probe, gone))
+                if k1 in c or c.get(k2, 'MISSING') != 'v2' or len(c) != n_expected - 1:
+                    fail('alias', 'after %s(k1): k1 in c=%r, get(k2)=%r, len=%d' % (probe, k1 in c, c.get(k2, 'MISSING'), len(c)))
+                if probe == 'absent':
+                    # k1 is now absent, k2 present: nothing addressed to k1 may hit k2
+                    t = c.touch(k1, expire=1000)
+                    p_ = c.pop(k1, 'MISSING')
+                    d_ = c.delete(k1)
+                    e2 = c.get(k2, 'MISSING', expire_time=True)
+                    if t is not False or p_ != 'MISSING' or d_ is not False or e2 != ('v2', None):
+                        fail('alias', 'with k1 absent: touch(k1)=%r pop(k1)=%r delete(k1)=%r, k2 reads %r' % (t, p_, d_, e2))
+                c[k1] = 'v1'
         if not equal:
             del c[k1]
             if k1 in c or c.get(k2) != 'v2' or len(c) != n_expected - 1:
